@@ -72,7 +72,9 @@ func (r *Report) known(v Violation) {
 		r.Known = append(r.Known, v)
 	}
 }
-func (r *Report) note(format string, a ...interface{}) { r.Notes = append(r.Notes, fmt.Sprintf(format, a...)) }
+func (r *Report) note(format string, a ...interface{}) {
+	r.Notes = append(r.Notes, fmt.Sprintf(format, a...))
+}
 
 type Ctx struct {
 	rep   *Report
